@@ -803,6 +803,17 @@ func (t *ttRun) recordLocal(i int, op ttOp) {
 		// blocks are byte-identical and so is the cid. The commit is already on record.
 		t.logf("   -> %s (identical to a commit written by n%d)", tailCid(heads[0]), t.commits[heads[0]].Writer)
 		t.r.Count("identical_commit_written_by_two_nodes", 1)
+		// node 0 still committed a mutation of its own: its subscription delivers a result for it,
+		// which must be consumed here (and equals the state of that - shared - commit)
+		if t.sub != nil && op.Node == 0 {
+			if ci := t.commits[heads[0]]; ci != nil {
+				if t.p.LazySub {
+					t.sub.pending = append(t.sub.pending, ci)
+				} else {
+					t.expectSub(ci)
+				}
+			}
+		}
 		return
 	}
 	if len(fresh) != 1 || len(heads) != 1 {
